@@ -67,7 +67,22 @@ ValueEventStr(r) == Head0(r.cls, r.tick, r.days, r.secs, r.us) \o <<58, 32, 34>>
 TimeSignatureStr(r) == Head0(r.cls, r.tick, r.days, r.secs, r.us) \o <<58, 32>> \o IntStr(r.upper) \o <<47>> \o r.lowerdigits
 PlainEventStr(r) == Head0(r.cls, r.tick, r.days, r.secs, r.us)
 
+\* str(InstrumentTrack): "InstrumentTrack(instrument: Instrument.<NAME>, difficulty: Difficulty.<NAME>, len(note_events): n, len(star_power_events): m)"
+Txt_TrackOpen  == <<73,110,115,116,114,117,109,101,110,116,84,114,97,99,107,40,105,110,115,116,114,117,109,101,110,116,58,32,73,110,115,116,114,117,109,101,110,116,46>>
+Txt_Difficulty == <<44,32,100,105,102,102,105,99,117,108,116,121,58,32,68,105,102,102,105,99,117,108,116,121,46>>
+Txt_LenNotes   == <<44,32,108,101,110,40,110,111,116,101,95,101,118,101,110,116,115,41,58,32>>
+Txt_LenSp      == <<44,32,108,101,110,40,115,116,97,114,95,112,111,119,101,114,95,101,118,101,110,116,115,41,58,32>>
+TrackStr(r) == Txt_TrackOpen \o r.inst \o Txt_Difficulty \o r.diff \o Txt_LenNotes \o IntStr(r.n) \o Txt_LenSp \o IntStr(r.m) \o <<41>>
+
+\* str(Chart): "Chart(\n  " + the renderings of metadata, global events track, sync track and every track (instruments in
+\* insertion order, difficulties in insertion order) joined by ",\n  " + ")"
+RECURSIVE JoinWith(_, _)
+JoinWith(parts, sep) == IF parts = <<>> THEN <<>> ELSE IF Len(parts) = 1 THEN parts[1] ELSE parts[1] \o sep \o JoinWith(Tail(parts), sep)
+ChartStr(r) == <<67,104,97,114,116,40,10,32,32>> \o JoinWith(r.parts, <<44,10,32,32>>) \o <<41>>
+
 EventStr(r) == CASE r.cls = "NoteEvent" -> NoteEventStr(r)
+                 [] r.cls = "InstrumentTrack" -> TrackStr(r)
+                 [] r.cls = "Chart" -> ChartStr(r)
                  [] r.cls = "StarPowerEvent" -> SpecialEventStr(r)
                  [] r.cls \in {"TrackEvent", "TextEvent", "SectionEvent", "LyricEvent"} -> ValueEventStr(r)
                  [] r.cls = "TimeSignatureEvent" -> TimeSignatureStr(r)
